@@ -200,7 +200,16 @@ class Exhaust(ast.NodeTransformer):
         top = _P(f"if __vc.leaves({lid}, {can_leave!r}):\n    pass\nelse:\n    __w{lid} = __vc.witness({lid}, __it{lid}, locals())\n    if __w{lid} is not __vc.NOW:\n        pass")[0]
         el = _P(f"x = __vc.elem({lid}, __it{lid})")[0]; el.targets = [copy.deepcopy(node.target)]
         wh_a = ast.While(test=ast.Constant(True), body=body_a + _P(f"__vc.cut({lid})"), orelse=[])
-        top.body = havoc() + [el, wh_a]
+        # arm (a), ordered search: the iterations BEFORE the leaving one did not leave; if the witness element strictly precedes the
+        # leaving element in the real iteration order, the witness iteration ran without leaving (same treatment as in arm (b))
+        pre = []
+        if isinstance(node.target, ast.Name):
+            t = node.target.id
+            pre = _P(f"__x{lid} = {t}\n__v{lid} = __vc.witness_before({lid}, __it{lid}, locals(), {t})\nif __v{lid} is not __vc.NOW:\n    pass")
+            wi0 = _P(f"{t} = __v{lid}")
+            wh_b0 = ast.While(test=ast.Constant(True), body=copy.deepcopy(body_b) + [ast.Break()], orelse=[])
+            pre[2].body = havoc() + wi0 + _P(f"__vc.witness_begin({lid})") + [wh_b0] + _P(f"__vc.witness_done({lid})") + havoc() + _P(f"{t} = __x{lid}")
+        top.body = havoc() + [el] + pre + [wh_a]
         wi = _P(f"x = __w{lid}")[0]; wi.targets = [copy.deepcopy(node.target)]
         wh_b = ast.While(test=ast.Constant(True), body=body_b + [ast.Break()], orelse=[])
         inner_if = top.orelse[1]
@@ -290,6 +299,16 @@ class XVC:
         else: ok = bool(SymBool(c))
         if ok: return w
         self._ev(("witness-not-in-real-iterable", lid), True)
+        return XVC.NOW
+    def witness_before(self, lid, it, L, x):
+        """arm (a): the witness, if it is an element of the real iterable that comes strictly before the (arbitrary) leaving element x"""
+        if not self.use_witness or not it.prog: return XVC.NOW
+        w = self.specs[self.key[lid]]["witness"](self, L)
+        if w is None: return XVC.NOW
+        c = it.member(w)
+        before = (_r(w) < _r(x)) if it.st > 0 else (_r(w) > _r(x))
+        c = z3.And(c, before) if not isinstance(c, bool) else (before if c else z3.BoolVal(False))
+        if bool(SymBool(c)): return w
         return XVC.NOW
     def witness_begin(self, lid): self._ev(("witness-iteration", lid), True)
     def witness_done(self, lid): self._ev(("witness-iteration-did-not-leave", lid), True)
